@@ -104,6 +104,8 @@ package xds
 //@ props C14
 //@ results out
 //@ requires[elements] forall j int :: 0 <= j && j < len(intentions) ==> intentions[j] != nil
+//@ requires[precedence-ordered] forall a int, b int :: 0 <= a && a < b && b < len(intentions) ==> !structs.IntentionPrecedenceSorter(intentions).Less(b, a)
+//@ ensures[no-longer-than-the-input] len(out) <= len(intentions)
 //@ ensures[only-input-elements] forall k int :: 0 <= k && k < len(out) ==> exists j int :: 0 <= j && j < len(intentions) && out[k] == intentions[j]
 //@ ensures[first-of-each-source-kept] forall j int :: 0 <= j && j < len(intentions) && (forall p int :: 0 <= p && p < j ==> srcOf(intentions[p]) != srcOf(intentions[j])) ==> exists k int :: 0 <= k && k < len(out) && out[k] == intentions[j]
 //@ ensures[shadowed-ones-dropped] forall k int :: 0 <= k && k < len(out) ==> exists j int :: 0 <= j && j < len(intentions) && out[k] == intentions[j] && (forall p int :: 0 <= p && p < j ==> srcOf(intentions[p]) != srcOf(intentions[j]))
@@ -111,4 +113,23 @@ package xds
 //@ loop 1 invariant[seen-are-the-visited-sources] forall key structs.PeeredServiceName :: has(seenSource, key) <==> exists p int :: 0 <= p && p < range1_idx && srcOf(intentions[p]) == key
 //@ loop 1 invariant[collected-are-firsts] forall k int :: 0 <= k && k < len(out) ==> exists j int :: 0 <= j && j < range1_idx && out[k] == intentions[j] && (forall p int :: 0 <= p && p < j ==> srcOf(intentions[p]) != srcOf(intentions[j]))
 //@ loop 1 invariant[firsts-are-collected] forall j int :: 0 <= j && j < range1_idx && (forall p int :: 0 <= p && p < j ==> srcOf(intentions[p]) != srcOf(intentions[j])) ==> exists k int :: 0 <= k && k < len(out) && out[k] == intentions[j]
+//@ loop 1 invariant[count] len(out) <= range1_idx
 //@ loop 1 invariant[unchanged-means-all-kept] !changed ==> len(out) == range1_idx && forall k int :: 0 <= k && k < len(out) ==> out[k] == intentions[k]
+
+// building one rule from one intention (Envoy permissions, JWT, SPIFFE principals): outside the verified subset.
+// ASSUMED frame: it reads the intention and writes nothing that exists.
+//@ func intentionToIntermediateRBACForm
+//@ trusted
+//@ results rixn, rerr
+//@ modifies nothing
+
+// ---- C14 (order of the steps). The list is brought into precedence order BEFORE same-source shadowing is applied
+// (shadowing keeps the first intention of each source, which is the right one only in precedence order), and the
+// rules are produced in that order.
+//@ func intentionListToIntermediateRBACForm
+//@ props C14
+//@ results rules, err
+//@ requires[elements] forall j int :: 0 <= j && j < len(intentions) ==> intentions[j] != nil
+//@ ensures[no-more-rules-than-intentions] err == nil ==> len(rules) <= len(intentions)
+//@ loop 1 invariant[count] len(rbacIxns) <= range1_idx
+
